@@ -76,14 +76,15 @@ def c01_sig(v):
     sigs = []
     if e.get("ok") and not g.get("ok"):
         ends = _ends(rec.get("facts") or {})
+        why = []
         if "exception-end" in ends:
-            sigs.append("impl|fact|refused:exception end_pc = code_length")
+            why.append("exception end_pc = code_length")
         if "localvar-target-start" in ends:
-            sigs.append("impl|fact|refused:localvar_target start_pc = code_length")
+            why.append("localvar_target start_pc = code_length")
         if (rec.get("facts") or {}).get("version") == [67, 65535]:
-            sigs.append("impl|fact|refused:class file version 67.65535")
-        if not sigs:
-            sigs.append("impl|fact|refused:other")
+            why.append("class file version 67.65535")
+        # one atom: a file that uses several of these cannot be attributed to one of them
+        sigs.append("impl|fact|refused:" + (" + ".join(why) if why else "other"))
     elif e.get("ok") and g.get("ok"):
         if isinstance(g.get("v"), dict) and "proj_error" in g["v"]:
             sigs.append("impl|fact|tree-inconsistent")
